@@ -154,6 +154,66 @@ func fieldValues(d []byte, o int, small int, wrap bool) []Mut {
 	return out
 }
 
+// files with variable-length strings (attributes, compound members) that the reader resolves through a global heap collection
+var gcolBasesQuick = []string{"corpus/with_attributes.h5", "corpus/simple.h5", "corpus/vlen_strings.h5", "corpus/hdf5_official/tvlstr.h5"}
+var gcolBasesThorough = []string{"corpus/hdf5_official/h5diff_attr1.h5", "corpus/mathcad_document.h5", "corpus/hdf5_official/h5diff_attr2.h5"}
+
+// gcolCases walks the global heap collections of an image (signature GCOL, version 1, collection size, then objects of
+// id(2) refcount(2) reserved(4) size(8) data padded to 8) and returns for every object - the free-space object included - the
+// size field set to each edge value, alone and together with id := 0; and the id set to small values alone.
+func gcolCases(b *Base) [][]Mut {
+	d := b.Data
+	le := func(o int) uint64 {
+		var v uint64
+		for k := 7; k >= 0; k-- {
+			v = v<<8 | uint64(d[o+k])
+		}
+		return v
+	}
+	var out [][]Mut
+	for _, st := range b.Structs {
+		if st.Kind != "GCOL" || st.Off+16 > len(d) || d[st.Off+4] != 1 {
+			continue
+		}
+		csize := le(st.Off + 8)
+		if csize < 16 || uint64(st.Off)+csize > uint64(len(d)) {
+			continue
+		}
+		end := st.Off + int(csize)
+		n := 0
+		for p := st.Off + 16; p+16 <= end && n < 64; n++ {
+			id := int(d[p]) | int(d[p+1])<<8
+			size := le(p + 8)
+			remaining := uint64(end - p - 16)
+			vals := []uint64{1 << 63, 1<<63 + 8, 1<<63 - 8, ^uint64(0) - 15, ^uint64(0) - 23, ^uint64(0) - 7, ^uint64(0), 1 << 62, 1<<62 + 8, 1 << 61, 1 << 32,
+				remaining, remaining + 8, remaining - 8, remaining + 1, csize, csize + 8, csize - 8, 0, 1, 7, 8, 9, 16, size + 8, size - 8, size + 1, size * 2}
+			seen := map[uint64]bool{size: true}
+			for _, v := range vals {
+				if seen[v] {
+					continue
+				}
+				seen[v] = true
+				at := fmt.Sprintf("GCOL-object%d+8", n)
+				sz := Mut{K: "set", Off: p + 8, W: 8, V: v, At: at, VK: "gcol-size"}
+				out = append(out, []Mut{sz})
+				if id != 0 {
+					out = append(out, []Mut{sz, {K: "set", Off: p, W: 2, V: 0, At: fmt.Sprintf("GCOL-object%d+0", n), VK: "zero"}})
+				}
+			}
+			for _, v := range []uint64{0, 1, 2, 3, 0xFFFF} {
+				if int(v) != id {
+					out = append(out, []Mut{{K: "set", Off: p, W: 2, V: v, At: fmt.Sprintf("GCOL-object%d+0", n), VK: "gcol-id"}})
+				}
+			}
+			if id == 0 || size > remaining {
+				break // free space: the rest of the collection
+			}
+			p += 16 + int((size+7)&^7)
+		}
+	}
+	return out
+}
+
 // objTarget: one object of a larger corpus file whose structures are enumerated like a small file's (compact datasets exist
 // only in such files: the library cannot write the compact layout).
 type objTarget struct{ base, owner string }
@@ -179,6 +239,7 @@ func fieldsEnum(t *testing.T) {
 	type job struct {
 		base string
 		m    Mut
+		more []Mut // further mutations of the same case (field pairs)
 	}
 	var jobs []job
 	nOff := 0
@@ -213,8 +274,30 @@ func fieldsEnum(t *testing.T) {
 			inHeader := strings.HasPrefix(kind[o], "ohdr") || strings.HasPrefix(kind[o], "msg:") || kind[o] == "OHDR" || kind[o] == "OHv1" || kind[o] == "OCHK"
 			for _, m := range fieldValues(b.Data, o, small, inHeader) {
 				m.At = fmt.Sprintf("%s@%d", kind[o], o)
-				jobs = append(jobs, job{name, m})
+				jobs = append(jobs, job{base: name, m: m})
 			}
+		}
+	}
+	// global heap collections of files whose variable-length strings are resolved through them: object id / size pairs
+	gbases := append([]string(nil), gcolBasesQuick...)
+	if vt.Thorough() {
+		gbases = append(gbases, gcolBasesThorough...)
+	}
+	nG := 0
+	for _, name := range gbases {
+		b, ok := e.reg.bases[name]
+		if !ok {
+			continue
+		}
+		w := newWorker(e.dir)
+		fr := e.evalFast(w, b.Data, nil)
+		w.stop()
+		if fr.timedOut || len(fr.fails) > 0 {
+			continue
+		}
+		for _, ms := range gcolCases(b) {
+			nG++
+			jobs = append(jobs, job{base: name, m: ms[0], more: ms[1:]})
 		}
 	}
 	// this shard's share: every NShards-th job
@@ -225,11 +308,11 @@ func fieldsEnum(t *testing.T) {
 		}
 	}
 	if env.Shard == 0 {
-		rec.Note("fields: %d base files + %d single objects of larger files (compact datasets), %d metadata byte offsets, %d (offset, width, value) cases over all shards: every value 0..%d, original+-1, 0x7F, 0x80, 0xFF in each byte, 0..%d / all-ones over 2, 4, 8 bytes where the upper half of the field is in use, and inside object headers the wrap-around set (2^bits/size and neighbours for size 1..16) over 4 and 8 bytes", len(files), len(targets), nOff, len(jobs), small, small)
+		rec.Note("fields: %d base files + %d single objects of larger files (compact datasets), %d metadata byte offsets, %d (offset, width, value) cases over all shards: every value 0..%d, original+-1, 0x7F, 0x80, 0xFF in each byte, 0..%d / all-ones over 2, 4, 8 bytes where the upper half of the field is in use, and inside object headers the wrap-around set (2^bits/size and neighbours for size 1..16) over 4 and 8 bytes; plus %d global-heap cases (%d files): every object's size := wrap / edge values, alone and with the object's id := 0 (free space)", len(files), len(targets), nOff, len(jobs), small, small, nG, len(gbases))
 	}
 	ses.parallel(nWorkers, len(mine), func(w *worker, i int) {
 		j := mine[i]
-		c := Case{Base: j.base, Muts: []Mut{j.m}}
+		c := Case{Base: j.base, Muts: append([]Mut{j.m}, j.more...)}
 		img, inside, err := e.image(c)
 		if err != nil {
 			return
